@@ -16,6 +16,8 @@ Statements are rendered in source order, one step each:
     if <guards>: data = np.ascontiguousarray(data, dtype=dtype)      -> .convertIf [<guard>, ...]
           guards:  dtype is not None -> .dtypeGiven        np.dtype(dtype).kind == "f" -> .dtypeFloat
                    not isinstance(data, np.ndarray) -> .notNdarray     isinstance(data, (list, tuple)) -> .isListOrTuple
+    elif dtype is not None and np.dtype(dtype).kind in "OUS": for val in ..: if isinstance(val, str): util.check_text_storable(val)
+                                                                     -> .checkText   (only reached when the guards fail)
     data = np.array(vals, dtype=vtype)                               -> .convertIf []
     shape = np.shape(data)                                           -> .takeShape
     if self.has_data(name): dset = self.get_dataset(name); dset.shape = shape
@@ -124,6 +126,29 @@ def _is_convert(st, var):
     return (len(st.value.args) >= 1 and _u(st.value.args[0]) == var and ("dtype" in kws or len(st.value.args) >= 2))
 
 
+def _is_text_check(stmts):
+    """`for val in np.ravel(np.asarray(data, dtype=object)): if isinstance(val, str): util.check_text_storable(val)`"""
+    if len(stmts) != 1 or not isinstance(stmts[0], ast.For):
+        return False
+    loop = stmts[0]
+    if _u(loop.iter) != _E("np.ravel(np.asarray(data, dtype=object))") or loop.orelse or len(loop.body) != 1:
+        return False
+    t = loop.body[0]
+    v = _u(loop.target)
+    return (isinstance(t, ast.If) and not t.orelse and len(t.body) == 1 and _u(t.test) == _E("isinstance(%s, str)" % v)
+            and _u(t.body[0]) == _E("util.check_text_storable(%s)" % v))
+
+
+def _is_convert_or_textcheck(st):
+    """`if <float guards>: data = np.ascontiguousarray(..)  elif dtype is not None and np.dtype(dtype).kind in "OUS":
+    <text check>`"""
+    return (isinstance(st, ast.If) and len(st.body) == 1 and _is_convert(st.body[0], "data")
+            and _u(st.body[0].targets[0]) == "data" and len(st.orelse) == 1 and isinstance(st.orelse[0], ast.If)
+            and not st.orelse[0].orelse
+            and _u(st.orelse[0].test) == _E('dtype is not None and np.dtype(dtype).kind in "OUS"')
+            and _is_text_check(st.orelse[0].body))
+
+
 def _write_data_steps(fn):
     where = "H5Group.write_data"
     args = [a.arg for a in fn.args.args]
@@ -137,6 +162,9 @@ def _write_data_steps(fn):
             steps.append(".convertIf [%s]" % ", ".join(_guards(st.test, "data", where)))
         elif _is_convert(st, "data") and _u(st.targets[0]) == "data":
             steps.append(".convertIf []")
+        elif _is_convert_or_textcheck(st):
+            steps.append(".convertIf [%s]" % ", ".join(_guards(st.test, "data", where)))
+            steps.append(".checkText")
         elif s == "shape=np.shape(data)":
             steps.append(".takeShape")
         elif isinstance(st, ast.If) and _u(st.test) == "self.has_data(name)":
